@@ -14,7 +14,9 @@ structure Linked (c : Cfg) (s : Store) (h : Nat) (b : Block) : Prop where
   proposer : b.sh.hdr.proposerAddress = c.proposerAddr
   chainId : b.sh.hdr.chainId = c.chainId
   dataHash : b.data.daCommitment = b.sh.hdr.dataHash
-  first : h = c.initialHeight → b.sh.hdr.appHash = c.genesisRoot
+  proposerNonEmpty : b.sh.hdr.proposerAddress ≠ []
+  metaOK : ∀ m, b.data.metadata = some m → m.chainId = b.sh.hdr.chainId ∧ m.height = b.sh.hdr.height ∧ m.time = b.sh.hdr.time
+  first : h = c.initialHeight → b.sh.hdr.appHash = c.genesisRoot ∧ (h > 1 → c.genesisTime ≤ b.sh.hdr.time)
   link : h > c.initialHeight → ∃ p, s.getBlock (h - 1) = some p ∧
     b.sh.hdr.lastHeaderHash = p.sh.hdr.hash ∧ p.sh.hdr.time ≤ b.sh.hdr.time ∧
     b.sh.hdr.appHash = execRoot p.sh.hdr.appHash p.data.txs
@@ -32,7 +34,7 @@ structure Inv (c : Cfg) (n : Node) : Prop where
   low : c.initialHeight ≤ n.store.height + 1
   cid : n.lastState.chainId = c.chainId
   chain : ∀ h, c.initialHeight ≤ h → h ≤ n.store.height → ∃ b, n.store.getBlock h = some b ∧ Linked c n.store h b
-  tipGen : n.store.height + 1 = c.initialHeight → n.lastState.appHash = c.genesisRoot
+  tipGen : n.store.height + 1 = c.initialHeight → n.lastState.appHash = c.genesisRoot ∧ n.lastState.lastTime = c.genesisTime
   tip : c.initialHeight ≤ n.store.height → ∃ b, n.store.getBlock n.store.height = some b ∧
     n.lastState.lastTime = b.sh.hdr.time ∧ n.lastState.appHash = execRoot b.sh.hdr.appHash b.data.txs
   pend : ∀ pb, n.store.getBlock (n.store.height + 1) = some pb → PendingOK c n.store pb
@@ -110,6 +112,8 @@ theorem inv_early {c : Cfg} {n : Node} (hi : Inv c n) (sh : SHeader) (d : Data)
 theorem execValidate_none {st : State} {sh : SHeader} {d : Data} (h : execValidate st sh d = none) :
     sh.hdr.proposerAddress = sh.signer.addr ∧
     (∃ k, sh.signer.key = some k ∧ sh.sig = .by k (payload sh.hdr)) ∧
+    sh.hdr.proposerAddress ≠ [] ∧
+    (∀ m, d.metadata = some m → m.chainId = sh.hdr.chainId ∧ m.height = sh.hdr.height ∧ m.time = sh.hdr.time) ∧
     d.daCommitment = sh.hdr.dataHash ∧
     sh.hdr.chainId = st.chainId ∧ sh.hdr.height = st.lastHeight + 1 ∧
     (sh.hdr.height > 1 → st.lastTime ≤ sh.hdr.time) ∧ sh.hdr.appHash = st.appHash := by
@@ -125,9 +129,10 @@ theorem execValidate_none {st : State} {sh : SHeader} {d : Data} (h : execValida
       split at h; · simp at h
       split at h; · simp at h
       rename_i h1 h2 h3 h4
-      have hb : sh.hdr.proposerAddress = sh.signer.addr ∧ (∃ k, sh.signer.key = some k ∧ sh.sig = .by k (payload sh.hdr)) := by
+      have hb : sh.hdr.proposerAddress = sh.signer.addr ∧ (∃ k, sh.signer.key = some k ∧ sh.sig = .by k (payload sh.hdr)) ∧ sh.hdr.proposerAddress ≠ [] := by
         unfold validateBasic at hvb
         split at hvb; · simp at hvb
+        rename_i hne
         split at hvb; · simp at hvb
         split at hvb; · simp at hvb
         rename_i ha
@@ -136,19 +141,31 @@ theorem execValidate_none {st : State} {sh : SHeader} {d : Data} (h : execValida
         · rename_i k hk
           split at hvb
           · rename_i hv
-            exact ⟨by simpa using ha, k, hk, verify_eq_true hv⟩
+            exact ⟨by simpa using ha, ⟨k, hk, verify_eq_true hv⟩, hne⟩
           · simp at hvb
-      have hd : d.daCommitment = sh.hdr.dataHash := by
+      have hd : d.daCommitment = sh.hdr.dataHash ∧
+          (∀ m, d.metadata = some m → m.chainId = sh.hdr.chainId ∧ m.height = sh.hdr.height ∧ m.time = sh.hdr.time) := by
         unfold validateData at hvd
         split at hvd
-        · split at hvd; · simp at hvd
+        · rename_i m hm
+          split at hvd; · simp at hvd
+          rename_i hmm
           split at hvd
           · simp at hvd
-          · rename_i hne; simpa using hne
-        · split at hvd
+          · rename_i hne
+            refine ⟨by simpa using hne, ?_⟩
+            intro m' hm'
+            rw [hm] at hm'
+            have : m = m' := by simpa using hm'
+            subst this
+            simp only [not_or, Decidable.not_not] at hmm
+            exact ⟨hmm.1.symm, hmm.2.1.symm, hmm.2.2.symm⟩
+        · rename_i hm
+          split at hvd
           · simp at hvd
-          · rename_i hne; simpa using hne
-      refine ⟨hb.1, hb.2, hd, by simpa using h1, by simpa using h2, ?_, by simpa using h4⟩
+          · rename_i hne
+            exact ⟨by simpa using hne, fun m hm' => by rw [hm] at hm'; simp at hm'⟩
+      refine ⟨hb.1, hb.2.1, hb.2.2, hd.2, hd.1, by simpa using h1, by simpa using h2, ?_, by simpa using h4⟩
       intro hgt
       have : ¬ (sh.hdr.height > 1 ∧ sh.hdr.time < st.lastTime) := h3
       omega
@@ -164,13 +181,13 @@ theorem finish_inv {c : Cfg} {n : Node} (hi : Inv c n) {pb : Block}
   cases ex with
   | fail => exact hi
   | ok =>
-    simp only
+    simp only [signed, withMeta]
     split
     · exact hi
     · rename_i hv
       have hpo := hi.pend pb hpb
-      obtain ⟨hpa, ⟨k, hk, hsig⟩, hdh, hcid, hht, htime, hah⟩ := execValidate_none hv
-      simp only at hpa hk hsig hdh hcid hht htime hah
+      obtain ⟨hpa, ⟨k, hk, hsig⟩, hpne, hmeta, hdh, hcid, hht, htime, hah⟩ := execValidate_none hv
+      simp only at hpa hk hsig hdh hcid hht htime hah hpne hmeta
       have hkey : k = c.key := by
         have := hpo.signer
         rw [this] at hk
@@ -191,15 +208,19 @@ theorem finish_inv {c : Cfg} {n : Node} (hi : Inv c n) {pb : Block}
         intro k; rw [h2b, ← hs1, getBlock_saveBlock, hH]
       have hnbL : Linked c s2 (n.store.height + 1) nb := by
         subst hnb
-        refine ⟨hH, rfl, rfl, hpo.signer, ?_, ?_, ?_, ?_, ?_⟩
+        refine ⟨hH, rfl, rfl, hpo.signer, ?_, ?_, ?_, hpne, hmeta, ?_, ?_⟩
         · show pb.sh.hdr.proposerAddress = c.proposerAddr
           rw [hpa, hpo.signer]; rfl
         · show pb.sh.hdr.chainId = c.chainId
           rw [hcid, hi.cid]
         · exact hdh
         · intro heq
-          show pb.sh.hdr.appHash = c.genesisRoot
-          rw [hah]; exact hi.tipGen heq
+          refine ⟨?_, ?_⟩
+          · show pb.sh.hdr.appHash = c.genesisRoot
+            rw [hah]; exact (hi.tipGen heq).1
+          · intro hgt1
+            show c.genesisTime ≤ pb.sh.hdr.time
+            rw [← (hi.tipGen heq).2]; apply htime; omega
         · intro hgt
           obtain ⟨p, hp, hlk⟩ := hpo.link hgt
           obtain ⟨p', hp', ht, ha⟩ := hi.tip (by omega)
@@ -327,5 +348,226 @@ theorem run_inv {c : Cfg} {n : Node} (hi : Inv c n) (rs : List (SeqResp × ExecR
   induction rs generalizing n with
   | nil => exact hi
   | cons r rs ih => exact ih (publish_inv hi r.1 r.2)
+
+
+/-! ### heights and stability of committed blocks -/
+
+theorem finish_store {c : Cfg} {n : Node} (ws : List SW) (sh : SHeader) (d : Data) (ldh : Bytes) (ex : ExecResp)
+    (hh : sh.hdr.height = n.store.height + 1) :
+    ((finish c n ws sh d ldh ex).1.store.height = n.store.height ∨
+     (finish c n ws sh d ldh ex).1.store.height = n.store.height + 1) ∧
+    (∀ k, k ≤ n.store.height → (finish c n ws sh d ldh ex).1.store.getBlock k = n.store.getBlock k) := by
+  unfold finish
+  cases ex with
+  | fail => exact ⟨Or.inl rfl, fun _ _ => rfl⟩
+  | ok =>
+    simp only [signed, withMeta]
+    split
+    · exact ⟨Or.inl rfl, fun _ _ => rfl⟩
+    · simp only [hh]
+      generalize hs1 : n.store.apply (.saveBlock (n.store.height + 1) _) = s1
+      have h1h : s1.height = n.store.height := by rw [← hs1]; rfl
+      obtain ⟨a1, a2, _, _⟩ := applyAll_setHeightW s1 (n.store.height + 1)
+      constructor
+      · right
+        show (Store.apply _ _).height = _
+        simp [a1, h1h]
+      · intro k hk
+        show (Store.apply _ _).getBlock k = _
+        rw [getBlock_updateState, a2, ← hs1]
+        exact getBlock_saveBlock_other _ _ _ _ (by omega)
+
+theorem buildAndFinish_store {c : Cfg} {n0 : Node} (w0 : SW) (ls : Sig) (lhh ldh : Bytes)
+    (txs : List Bytes) (ts : Nat) (ex : ExecResp) :
+    ((buildAndFinish c n0 w0 ls lhh ldh txs ts ex).1.store.height = n0.store.height ∨
+     (buildAndFinish c n0 w0 ls lhh ldh txs ts ex).1.store.height = n0.store.height + 1) ∧
+    (∀ k, k ≤ n0.store.height → (buildAndFinish c n0 w0 ls lhh ldh txs ts ex).1.store.getBlock k = n0.store.getBlock k) := by
+  unfold buildAndFinish
+  obtain ⟨f1, _⟩ := createBlock_facts c n0.lastState (n0.store.height + 1) ls lhh txs ts
+  generalize createBlock c n0.lastState (n0.store.height + 1) ls lhh txs ts = blk at f1
+  have := finish_store (c := c)
+    (n := { n0 with store := n0.store.apply (.saveBlock (n0.store.height + 1) (Block.mk blk.1 blk.2 .none)) })
+    [w0, .saveBlock (n0.store.height + 1) (Block.mk blk.1 blk.2 .none)] blk.1 blk.2 ldh ex f1
+  refine ⟨this.1, fun k hk => ?_⟩
+  rw [this.2 k hk]
+  exact getBlock_saveBlock_other _ _ _ _ (by omega)
+
+theorem publish_store {c : Cfg} {n : Node} (hi : Inv c n) (resp : SeqResp) (ex : ExecResp) :
+    ((publish c n resp ex).1.store.height = n.store.height ∨
+     (publish c n resp ex).1.store.height = n.store.height + 1) ∧
+    (∀ k, k ≤ n.store.height → (publish c n resp ex).1.store.getBlock k = n.store.getBlock k) := by
+  unfold publish
+  split
+  · exact ⟨Or.inl rfl, fun _ _ => rfl⟩
+  · split
+    · exact ⟨Or.inl rfl, fun _ _ => rfl⟩
+    · split
+      · rename_i pb hpb
+        exact finish_store [] pb.sh pb.data _ ex (hi.pend pb hpb).height
+      · unfold fresh
+        cases resp with
+        | err => exact ⟨Or.inl rfl, fun _ _ => rfl⟩
+        | absent => exact ⟨Or.inl rfl, fun _ _ => rfl⟩
+        | batch txs ts bd =>
+          simp only
+          split
+          · exact ⟨Or.inl rfl, fun _ _ => rfl⟩
+          · split
+            · exact ⟨Or.inl rfl, fun _ _ => rfl⟩
+            · exact buildAndFinish_store (n0 := { n with store := n.store.apply (.setMeta lastBatchDataKey (batchDataToBytes bd)), lastBatchData := bd }) _ _ _ _ txs ts ex
+
+
+/-! ### start-up on an empty disk -/
+
+def genesisState (c : Cfg) : State :=
+  { chainId := c.chainId, initialHeight := c.initialHeight, lastHeight := c.initialHeight - 1,
+    lastTime := c.genesisTime, appHash := c.genesisRoot, daHeight := 0 }
+
+def freshDisk (c : Cfg) : Store :=
+  let d1 := ({} : Store).apply (.saveBlock c.initialHeight (genesisBlock c))
+  d1.applyAll (setHeightW d1 (c.initialHeight - 1))
+
+def freshNode (c : Cfg) : Node :=
+  { store := freshDisk c, lastState := genesisState c, lastBatchData := [], hdrWm := 0, dataWm := 0, daHeight := 0 }
+
+theorem freshDisk_facts (c : Cfg) :
+    (freshDisk c).height = c.initialHeight - 1 ∧
+    (∀ k, (freshDisk c).getBlock k = if c.initialHeight = k then some (genesisBlock c) else none) ∧
+    (freshDisk c).kv = [] ∧ (freshDisk c).state = none := by
+  unfold freshDisk
+  simp only
+  generalize hd1' : (({} : Store).apply (.saveBlock c.initialHeight (genesisBlock c))) = d1
+  have hd1 : ∀ k, d1.getBlock k = if c.initialHeight = k then some (genesisBlock c) else none := by
+    intro k; rw [← hd1', getBlock_saveBlock]; rfl
+  have hd1h : d1.height = 0 := by rw [← hd1']; rfl
+  have hd1kv : d1.kv = [] := by rw [← hd1']; rfl
+  have hd1s : d1.state = none := by rw [← hd1']; rfl
+  obtain ⟨a1, a2, a3, a4⟩ := applyAll_setHeightW d1 (c.initialHeight - 1)
+  refine ⟨?_, fun k => by rw [a2, hd1], by rw [a4, hd1kv], by rw [a3, hd1s]⟩
+  rw [a1, hd1h]; split <;> omega
+
+def freshWrites (c : Cfg) : List SW :=
+  [SW.saveBlock c.initialHeight (genesisBlock c)] ++
+    setHeightW (({} : Store).apply (.saveBlock c.initialHeight (genesisBlock c))) (c.initialHeight - 1)
+
+theorem start_empty (c : Cfg) : start c {} = .ok (freshNode c, freshWrites c) := by
+  obtain ⟨_, _, hkv, _⟩ := freshDisk_facts c
+  have hwm : ∀ k, wmOf (freshDisk c) k = some 0 := by
+    intro k; simp [wmOf, Store.getMeta, hkv]
+  have hm : (freshDisk c).getMeta lastBatchDataKey = none := by simp [Store.getMeta, hkv]
+  unfold start
+  simp only []
+  show (match wmOf (freshDisk c) hdrWmKey, wmOf (freshDisk c) dataWmKey with
+        | some hw, some dw => _ | _, _ => _) = _
+  rw [hwm, hwm]
+  have hm' : (((({} : Store).apply (SW.saveBlock c.initialHeight (genesisBlock c))).applyAll
+      (setHeightW (({} : Store).apply (SW.saveBlock c.initialHeight (genesisBlock c))) (c.initialHeight - 1))).getMeta
+      lastBatchDataKey) = none := hm
+  simp [hm', freshNode, freshDisk, genesisState, freshWrites]
+
+theorem freshNode_inv (c : Cfg) (hpos : 1 ≤ c.initialHeight) : Inv c (freshNode c) := by
+  obtain ⟨hh, hg, hkv, hst⟩ := freshDisk_facts c
+  refine ⟨hpos, ?_, ?_, rfl, ?_, ?_, ?_, ?_, ?_⟩
+  · show (freshDisk c).height = _; rw [hh]; rfl
+  · show c.initialHeight ≤ (freshDisk c).height + 1; rw [hh]; omega
+  · intro h h1 h2
+    have : h ≤ (freshDisk c).height := h2
+    rw [hh] at this; omega
+  · intro _; exact ⟨rfl, rfl⟩
+  · intro h1
+    have : c.initialHeight ≤ (freshDisk c).height := h1
+    rw [hh] at this; omega
+  · intro pb hpb
+    have hpb' : (freshDisk c).getBlock ((freshDisk c).height + 1) = some pb := hpb
+    rw [hh, hg, if_pos (by omega)] at hpb'
+    simp only [Option.some.injEq] at hpb'
+    subst hpb'
+    refine ⟨?_, rfl, ?_⟩
+    · show (genesisBlock c).sh.hdr.height = (freshDisk c).height + 1
+      rw [hh]; simp [genesisBlock]; omega
+    · intro hgt
+      have : (freshDisk c).height + 1 > c.initialHeight := hgt
+      rw [hh] at this; omega
+  · intro h hgt
+    have : h > (freshDisk c).height + 1 := hgt
+    rw [hh] at this
+    show (freshDisk c).getBlock h = none
+    rw [hg, if_neg (by omega)]
+
+
+/-! ### liveness when no invalid block is waiting at `height + 1` -/
+
+theorem daCommitment_txs (txs : List Bytes) (m : Option Metadata) :
+    ({ metadata := m, txs := txs } : Data).daCommitment =
+      (if txs.isEmpty then emptyDataHash else ({ txs := txs } : Data).daCommitment) := by
+  cases txs with
+  | nil => rfl
+  | cons t ts => rfl
+
+theorem createBlock_validates {c : Cfg} {st : State} (h : Nat) (ls : Sig) (lhh ldh : Bytes) (txs : List Bytes) (ts : Nat)
+    (hne : c.proposerAddr ≠ []) (hh : h = st.lastHeight + 1) (hts : h > 1 → st.lastTime ≤ ts) :
+    execValidate st (signed c (createBlock c st h ls lhh txs ts).1)
+      (withMeta (createBlock c st h ls lhh txs ts).2 (createBlock c st h ls lhh txs ts).1.hdr ldh) = none := by
+  unfold execValidate
+  have hvb : validateBasic (signed c (createBlock c st h ls lhh txs ts).1) = none := by
+    unfold validateBasic
+    simp [signed, createBlock, hne, Sig.isEmpty, mySigner, verify_by]
+  rw [hvb]
+  have hvd : validateData (signed c (createBlock c st h ls lhh txs ts).1)
+      (withMeta (createBlock c st h ls lhh txs ts).2 (createBlock c st h ls lhh txs ts).1.hdr ldh) = none := by
+    unfold validateData
+    simp only [signed, withMeta, createBlock, ne_eq, not_true_eq_false, or_self, ↓reduceIte]
+    cases txs with
+    | nil => simp [Data.daCommitment, emptyDataHash]
+    | cons t ts => simp [Data.daCommitment]
+  rw [hvd]
+  simp only [signed, createBlock, ne_eq, not_true_eq_false, ↓reduceIte]
+  rw [if_neg (by omega)]
+  rw [if_neg]
+  intro ⟨h1, h2⟩
+  have := hts h1
+  omega
+
+/-- with nothing stored at `height + 1`, one well-formed answer produces the next block -/
+theorem fresh_commits {c : Cfg} {n : Node} (hi : Inv c n) (hnone : n.store.getBlock (n.store.height + 1) = none)
+    (hmax : c.maxPending = 0) (hsg : c.signerAddr = c.proposerAddr) (hne : c.proposerAddr ≠ [])
+    (txs : List Bytes) (ts : Nat) (bd : List Bytes) (hts : n.lastState.lastTime ≤ ts) :
+    (publish c n (.batch txs ts bd) .ok).2.2 = .ok ∧
+    (publish c n (.batch txs ts bd) .ok).1.store.height = n.store.height + 1 := by
+  have hnr : pendingRefuses c n = false := by simp [pendingRefuses, hmax]
+  unfold publish
+  simp only [hnr, Bool.false_eq_true, ↓reduceIte]
+  -- the predecessor is readable
+  have hprev : ∃ ls lhh ldh lht, prevInfo c n.store = some (ls, lhh, ldh, lht) ∧ regressed lht ts = false := by
+    unfold prevInfo
+    by_cases hfirst : n.store.height + 1 ≤ c.initialHeight
+    · exact ⟨_, _, _, _, by rw [if_pos hfirst], rfl⟩
+    · obtain ⟨b, hb, ht, _⟩ := hi.tip (by omega)
+      refine ⟨_, _, _, _, by rw [if_neg hfirst, hb], ?_⟩
+      simp only [regressed, decide_eq_false_iff_not]
+      omega
+  obtain ⟨ls, lhh, ldh, lht, hp, hreg⟩ := hprev
+  rw [hp]
+  simp only [hnone]
+  unfold fresh
+  simp only [hreg, Bool.and_false, Bool.false_eq_true, ↓reduceIte, hsg, ne_eq, not_true_eq_false]
+  unfold buildAndFinish
+  simp only
+  unfold finish
+  simp only
+  have hval := createBlock_validates (c := c) (st := n.lastState) (n.store.height + 1) ls lhh ldh txs ts hne
+    (by rw [hi.hs]) (fun _ => hts)
+  have hheight : (n.store.apply (.setMeta lastBatchDataKey (batchDataToBytes bd))).height = n.store.height := rfl
+  simp only [hheight]
+  rw [hval]
+  refine ⟨rfl, ?_⟩
+  simp only
+  show (Store.apply _ _).height = _
+  rw [height_updateState]
+  generalize hs1 : Store.apply _ (.saveBlock (signed c (createBlock c n.lastState (n.store.height + 1) ls lhh txs ts).1).hdr.height _) = s1
+  have h1h : s1.height = n.store.height := by rw [← hs1]; rfl
+  obtain ⟨a1, _⟩ := applyAll_setHeightW s1 (signed c (createBlock c n.lastState (n.store.height + 1) ls lhh txs ts).1).hdr.height
+  rw [a1, h1h]
+  simp [signed, createBlock]
 
 end Producer
